@@ -112,6 +112,31 @@ theorem c01_start_point (cfg : Cfg) (ops : List WriteOp) :
   rw [hkeep, hv, if_pos rfl] at hu
   simpa using dropWhile_head (fun u : AU => !u.sync) _ u us hu
 
+/-- … so the first unit that ever comes out of the leading video track of an fMP4 / Low-Latency muxer is a
+random-access unit (it is the first one written, by `c01_start_point` and `c01_run_is_accepted`). -/
+theorem c01_start_point_run (cfg : Cfg) (st0 : State) (ops : List WriteOp)
+    (hstart : start cfg = .ok st0) (hv : cfg.variant ≠ .mpegts)
+    (hin : InRange cfg ops = true) (hok : AllOk st0 ops = true)
+    (hvid : (trackCfg cfg (leadOf cfg)).codec.isVideo = true)
+    (hnb : (unitsOn cfg ops (leadOf cfg)).all (fun u => decide (0 ≤ u.dts + offset cfg (leadOf cfg))) = true) :
+    ∀ s rest, unitsOut (runLog (leadOf cfg) st0 [] ops).2 (run st0 ops) (leadOf cfg) = s :: rest → s.sync = true := by
+  intro s rest hs
+  have hne : cfg.tracks ≠ [] := by
+    intro h
+    have : (trackCfg cfg (leadOf cfg)).codec.isVideo = false := by simp [trackCfg, h, Codec.isVideo]
+    rw [this] at hvid; cases hvid
+  have ht : leadOf cfg < cfg.tracks.length := by rw [leadOf_eq_leadingIdx]; exact leadingIdx_lt _ hne
+  have h1 := (c01_run_is_accepted cfg st0 ops (leadOf cfg) hstart hv hin hok ht).2
+  rw [hs] at h1
+  cases ha : accepted cfg ops (leadOf cfg) with
+  | nil => rw [ha] at h1; simp at h1
+  | cons u us =>
+    rw [ha] at h1
+    simp only [List.map_cons, List.cons.injEq] at h1
+    have hu := ((c01_start_point cfg ops).2 hnb).2 hvid u us ha
+    have := congrArg AU.sync h1.1
+    simpa [AU.ofSample, shiftAU, hu] using this
+
 /-- MPEG-TS: the PES units of all finished segments (history) followed by those of the open segment are exactly the
 accepted calls, in writing order, with pts/dts = `multiplyAndDivide x 90000 rate` (regenerated arithmetic). -/
 theorem c01_ts_units (cfg : Cfg) (st0 : State) (ops : List WriteOp)
@@ -182,6 +207,7 @@ example : start cfgT = .ok (stOf cfgT) ∧ cfgT.variant = .mpegts ∧ InRange cf
 example : (acceptedTs cfgT opsT).map (fun u => (u.track, u.pays)) =
     [(1, [3]), (0, [103, 104]), (1, [4]), (0, [105]), (1, [6]), (0, [107]), (1, [7]), (1, [8]), (0, [108]), (1, [9])] ∧
     (runLog 0 (stOf cfgT) [] opsT).2.length = 3 := ⟨by decide, by rfl⟩
+example := c01_start_point_run cfgL (stOf cfgL) (opsL.drop 3) (by rfl) (by decide) (by decide) (by rfl) (by decide) (by decide)
 example := c01_ts_units cfgT (stOf cfgT) opsT (by rfl) (by decide) (by decide) (by rfl)
 
 end examples
